@@ -308,6 +308,29 @@ def grouping(rep, prog):
         raise AnalysisError('PGPKey.parse: result is not one collection (%s)' % sorted(keys))
     KEYS = keys.pop()
     recent = '%s[next(reversed(%s))]' % (KEYS, KEYS)
+    # ---- nothing that was parsed may be taken out of the result again, except the entry that IS the object parse() fills (self)
+    removed = []
+    for s in outs:
+        for e in s.events:
+            if e[0] == 'call' and e[1] in ('%s.%s' % (KEYS, mth) for mth in ('pop', 'popitem', 'clear', '__delitem__')):
+                removed.append(('%s(%s)' % (e[1], ', '.join(e[2])), e[2][0] if e[2] else None))
+            elif e[0] == 'del' and e[1].startswith(KEYS + '['):
+                removed.append(('del %s' % e[1], e[1][len(KEYS) + 1:-1]))
+            elif e[0] == 'store' and e[1] == KEYS:
+                removed.append(('%s rebound' % KEYS, None))
+    own_entry = '(%s.fingerprint.keyid, %s.is_public)' % (me, me)
+    bad = []
+    for what, key in sorted(set(removed)):
+        mk = re.match(r'^\((.*), ([^,()]+)\)$', key or '')
+        # harmless: the entry of self itself, or a key whose second component is a constant that no filed key has (filed keys are
+        # (key id, is_public) with is_public a bool)
+        harmless = key == own_entry or (mk is not None and mk.group(2) not in ('True', 'False') and re.match(r"^(None|-?\d+|'.*')$", mk.group(2)) is not None)
+        if not harmless:
+            bad.append(what)
+    rep.check(not bad, 'C14.3', 'PGPKey.parse', 'entries removed from the result: %s' % (bad or 'none that can match a parsed key'),
+              'every key object built from the input is returned: only the entry of the key that parse() filled in place (same key id AND same '
+              'public/private half) may be removed from the result', where=where, expected='keys.pop((self.fingerprint.keyid, self.is_public), None) at most',
+              found=bad)
     mro = {h: {c.name for c in prog.cls('pgpy.packet.packets', h).mro()} for h in HEADS}
     seen = set()
     for head, kind in HEADS.items():
@@ -566,6 +589,42 @@ def copies(rep, prog):
         rep.check(raw_idx is not None and not late and not any_setitem, 'C14.4', 'SubPackets.__copy__', 'received hashed octets carried; item stores %s' % [e[1] for e in any_setitem],
                   'a copy must keep the received hashed octets: filing subpackets through __setitem__ invalidates them, so a copied imported '
                   'signature would be re-encoded and stop verifying', where=cp.where, expected='sp._hashed_raw = copy.copy(self._hashed_raw) with the maps copied directly')
+    # packet-level copies reached from the copies above (copy.copy of the key / user id / user attribute / signature packet): an
+    # explicit __copy__ must carry every field the packet's writer emits; no __copy__ at all is the generic (complete) copy
+    for cname in ('PubKeyV4', 'PrivKeyV4', 'PubSubKeyV4', 'PrivSubKeyV4', 'UserID', 'UserAttribute', 'SignatureV4'):
+        c = prog.cls('pgpy.packet.packets', cname)
+        cpm = c.find_method('__copy__')
+        if cpm is None:
+            rep.ok('C14.4', '%s.__copy__' % cname, 'generic copy (no override)')
+            continue
+        w = c.find_method('__bytearray__')
+        if w is None:
+            raise AnalysisError('%s.__bytearray__ vanished' % cname)
+        wme, cme = w.params[0], cpm.params[0]
+        emitted = set()
+        for s in Interp(prog, Scenario(inline=noinline, self_cls=c)).run(w):
+            r = render(s.ret) if s.ret is not None else ''
+            emitted |= {x.lstrip('_') for x in re.findall(r'(?<![\w.])%s\.(\w+)' % re.escape(wme), r)}
+            if re.search(r'super\(\w*\)\.__bytearray__\(\)', r):
+                emitted.add('header')
+        for s in Interp(prog, Scenario(inline=noinline, self_cls=c)).run(cpm):
+            if s.raised is not None:
+                continue
+            obj = render(s.ret)
+            carried = set()
+            for pth, v, l, _ in s.stores:
+                m = re.match(r'^%s\.(\w+)$' % re.escape(obj), pth)
+                if m is None:
+                    continue
+                fld = m.group(1).lstrip('_')
+                src = re.sub(r'^(?:copy\.copy|copy\.deepcopy|bytearray|bytes|list)\((.*)\)$', r'\1', v)
+                src = re.sub(r'(\[:\]|\.copy\(\))$', '', src)
+                if src in ('%s.%s' % (cme, fld), '%s._%s' % (cme, fld)):
+                    carried.add(fld)
+            missing = sorted(emitted - carried)
+            rep.check(not missing and bool(emitted), 'C14.4', '%s.__copy__' % cname, 'writer emits %s, copy carries %s' % (sorted(emitted), sorted(carried)),
+                      'a copied packet must carry every field its writer emits (a copy rebuilt from a derived view exports a truncated packet)',
+                      where=cpm.where, expected=sorted(emitted), found=sorted(carried))
     # new __init__ attributes must be classified
     known = {'PGPKey': {'_key', '_children', '_signatures', '_uids', '_sibling', '_self_verified', '_require_usage_flags'},
              'PGPUID': {'_uid', '_signatures'}, 'PGPSignature': {'_signature'}, 'SubPackets': {'_hashed_sp', '_unhashed_sp', '_hashed_raw'}}
@@ -600,6 +659,10 @@ def attach(rep, prog):
               'a signature is inserted into the key\'s sorted collection (never replacing another)', where=f.where)
     rep.check(bool(live) and all(render(s.ret) == me for s in live), 'C14.5', 'PGPKey.__or__', 'returns %s' % sorted({render(s.ret) for s in live}),
               'attaching returns the key itself (`key |= x` keeps the key)', where=f.where)
+    rejected = [s.raised for s in outs if s.raised is not None]
+    replaced = sorted({p for s in live for p, v, l, _ in s.stores if p in ('%s._signatures' % me, '%s._uids' % me, '%s._children' % me)})
+    rep.check(not rejected and not replaced, 'C14.5', 'PGPKey.__or__', 'signature operand: rejected %s, collections replaced %s' % (rejected, replaced),
+              'every signature is accepted and added to the existing collection (none refused, the collection is not rebuilt / re-sorted)', where=f.where)
     binding = '%s.type == SignatureType.Subkey_Binding' % o
     emb_coll = "%s._signature.subpackets['EmbeddedSignature']" % o
     loops = [r for r in recs if r.coll in (emb_coll, "%s._signature.subpackets['h_EmbeddedSignature']" % o)]
